@@ -9,5 +9,6 @@ CONSTANTS
   KindChoices = {"async", "blocking"}
   BodyPanics = TRUE
   BodyUsesPool = FALSE
+  JoinerOnPool = FALSE
 SPECIFICATION Spec
 INVARIANTS TypeOK ExactlyOnce ResultDelivery JoinedFirst SeqNoOverlap SeqAllFinished ConcNothingLeft JoinAfterExit
